@@ -62,6 +62,9 @@ CHECKS['C09'] = ('runtime oracle: M*E with E built element-wise in long double /
 CHECKS['C20'] = ('compiler sanitizers as oracle: every other monitor and a dedicated domain-edge monitor rebuilt with ASan+UBSan (+float-cast-overflow) of g++ 12 (clang 14 in the thorough tier) and re-run single-threaded on in-domain workloads; reports located under glm/ are attributed to (operation, input) through the monitor breadcrumb',
          'Any UBSan/ASan report inside glm/ raised while the in-domain workloads of the other properties run is a violation keyed by (operation, UB kind, file). Quick: the integer/bitfield/packing/ULP/common monitors and the edge monitor (about 10 sanitizer builds); thorough: all monitors including SIMD builds, both compilers.',
          TRUST + ' Only UB the installed sanitizers can observe; strict aliasing and inactive-union reads are out of reach; left shift of negative values is deliberately not flagged.', 'DESIGN.md 7/C20')
+CHECKS['C15'] = ('offline differential checker over recorded result digests: one operation table built once per configuration (21 single macros, -O0/-O2/-O3; thorough adds macro pairs, clang, more -O levels), identical deterministic input stream, 64-bit digest per (operation, 256-record chunk), first differing record decoded by re-running both builds in dump mode',
+         'Every configuration build evaluates 38 operation groups (every function with a pre-C++11 fallback body individually, integer/bitfield functions, vector/matrix/quaternion algebra, transforms, packing, constructors, decompose, gtx quaternion/dual quaternion, the length_t-templated vector overloads of gtc/round, gtc/ulp, ext/vector_integer) on the same inputs; results must be bit-identical to the default -O2 build (NaN==NaN). A translation unit that compiles in the default configuration but not under a macro is reported as well.',
+         TRUST + ' Inputs that reach libm are never compile-time constants (volatile-sourced literals), so compile-time folding cannot masquerade as a configuration difference.', 'DESIGN.md 7/C15')
 REASONS = {}
 
 checks = []
